@@ -271,6 +271,12 @@ class Fn:
             # `try: x = f(..) except ValueError: <handler>`: f is translated to a function into `Except Err`;
             # the handler takes every error of f (f raises nothing but that exception: stated by the rule for f)
             x = s.body[0].targets[0].id
+            hb = [h_ for h_ in s.handlers[0].body if not self.is_skipped(h_)]
+            if len(hb) == 1 and isinstance(hb[0], ast.Pass) and s.handlers[0].type.id == "ValueError" and x in self.defd \
+                    and x in self.cfg.get("optional_vars", ()) and "try_value" in self.cfg:
+                # `try: x = f(..) except ValueError: pass`: x keeps its value on ValueError, any other exception goes on
+                line = pad + "let %s ← %s" % (lean_name(x), self.cfg["try_value"].format(self.E(s.body[0].value), lean_name(x)))
+                return [line] + self.S_(rest, ind, end, live_after)
             ls = [pad + "match %s with" % self.E(s.body[0].value), pad + "| Except.error _ =>"]
             if not self.always_leaves(s.handlers[0].body):
                 raise Unsupported("exception handler that falls through")
@@ -571,6 +577,31 @@ FUNCS.append(
                       "suffixV4 := {M}, suffixV6 := {N} }})")]))
 
 FUNCS.append(
+    dict(module="netconan/sensitive_item_removal.py", qual="_anonymize_value", name="anonymize_value",
+         sig="(x : Secrets.Ext) (fs : List Regex.Re) (raw_val : List Char) (salt : List Char) : Py.L (List Char)",
+         add="++", truthiness=True, raise_="Py.lraise Err.{}", optional_vars=("decrypted",), try_value="Py.tryValue ({0}) {1}",
+         skip_stmts=["logging.debug(A)", "logging.debug(A, B)", "logging.debug(A, B, C)"],
+         expr_rules=[("_extract_enclosing_text(A)", "Secrets.extractEnclosing (List.length {A} + 1) {A} [] []"),
+                     ("val in reserved_words", "x.isReserved val"),
+                     ("A.startswith(juniper_secrets.MAGIC)", "Secrets.startsWith {A} Generated.junMagic"),
+                     ("juniper_secrets.juniper_decrypt(A)", "Juniper.decrypt {A}"),
+                     ("val in lookup", "((← Py.lookup).get val).isSome"),
+                     ("decrypted in lookup", "Py.optIn decrypted (← Py.lookup)"),
+                     ("lookup[val]", "(← Py.lkGet val)"),
+                     ("lookup[decrypted]", "(← Py.lkGetOpt decrypted)"),
+                     ("juniper_secrets.juniper_nonrandom_encrypt(A, salt)", "(← Py.lift (Juniper.encrypt {A} (some salt)))"),
+                     ("'netconanRemoved{}'.format(len(lookup))", "Secrets.pseudonym (← Py.lookup).length"),
+                     ("_check_sensitive_item_format(A)", "check_sensitive_item_format fs {A}"),
+                     ("cisco_type7.using(salt=9).hash(A)", "Secrets.type7 9 {A}"),
+                     ("str(int(b2a_hex(A.encode()), 16))", "Secrets.numericOf {A}"),
+                     ("b2a_hex(A.encode()).decode()", "Secrets.hexOf {A}"),
+                     ("min(len(val.split('$')[2]), 8)", "Secrets.md5SaltLen val"),
+                     ("md5_crypt.using(salt='0' * old_salt_size).hash(A)", "x.md5crypt old_salt_size {A}"),
+                     ("sha512_crypt.using(rounds=5000, salt='0' * 16).hash(A)", "x.sha512crypt {A}")] +
+                    [("_sensitive_item_formats.%s" % k, "Secrets.Fmt.%s" % v) for k, v in FMT_NAMES.items()],
+         stmt_rules=[("lookup[decrypted] = juniper_secrets.juniper_decrypt(anon_val)", "Py.lkSetOpt decrypted (← Py.lift (Juniper.decrypt anon_val))"),
+                     ("lookup[val] = anon_val", "Py.lkSet val anon_val")]))
+FUNCS.append(
     dict(module="netconan/anonymize_files.py", qual="FileAnonymizer.anonymize_io", name="line_step", select="for_body",
          sig="(p : Lines.Pipeline) (lk : Secrets.Lookup) (line : List Char) : Except Err (List Char × Secrets.Lookup × List Secrets.LogRec)",
          raise_="throw Err.{}",
@@ -589,8 +620,8 @@ GROUPS = {
     "SrcIp": dict(imports=["Netconan.Model.Py", "Netconan.Model.Mask", "Netconan.Model.IpText"],
                   serves=["C01", "C02", "C03", "C04", "C05", "C17"],
                   funcs=["is_mask", "anonymize_bits", "deanonymize_bits", "anonymize", "deanonymize", "seed_loop", "anonymize_match"]),
-    "SrcSecrets": dict(imports=["Netconan.Model.Py", "Netconan.Model.Secrets"], serves=["C07", "C08", "C09"],
-                       funcs=["check_sensitive_item_format"]),
+    "SrcSecrets": dict(imports=["Netconan.Model.PySecrets"], serves=["C07", "C08", "C09"],
+                       funcs=["check_sensitive_item_format", "anonymize_value"]),
     "SrcAs": dict(imports=["Netconan.Model.Py", "Netconan.Model.Words"], serves=["C11"],
                   funcs=["generate_as_number_replacement"]),
     "SrcLines": dict(imports=["Netconan.Model.Py", "Netconan.Model.Lines"], serves=["C12", "C13", "C14", "C15"], funcs=["line_step"]),
